@@ -363,7 +363,13 @@ class AbstractOnlineSpecification(AbstractSpecification):
         if self.set_ast_flag != True:
             self.online_interpreter.set_ast(self.ast)
             self.set_ast_flag = True
-        self.online_interpreter.reset()
+        try:
+            self.online_interpreter.reset()
+        except RTAMTException:
+            # the operators could not be rebuilt (a bound that no longer fits the sampling period):
+            # the next call builds them again and is rejected in the same way
+            self.set_ast_flag = False
+            raise
         # a specification that is an offline monitor too: sampling_violation_counter restarts at 0
         offline = getattr(self, 'offline_interpreter', None)
         if isinstance(offline, DiscreteTimeInterpreter):
